@@ -377,13 +377,13 @@ Proof.
       exact (findk_none l1 ks Hf c1 H1).
 Qed.
 
-Lemma retain_trets p m e n : wf n ->
-  forall q m', In (q, m') (trets (retain p m e n)) <->
+Lemma retain_trets p m e ow n : wf n ->
+  forall q m', In (q, m') (trets (retain p m e ow n)) <->
     (e = false /\ q = p /\ m' = m) \/ (In (q, m') (trets n) /\ q <> p).
 Proof.
   intros Hwf q m'. unfold retain. destruct e.
   - rewrite (ret_remove_trets p n Hwf). split; [intros H; right; exact H | intros [[E _]|H]; [discriminate | exact H]].
-  - destruct (m_qos m =? 0).
+  - destruct ((m_qos m =? 0) && negb ow).
     + destruct (ret_remove_spec p n Hwf) as [Hwf' _]. rewrite (ret_insert_trets p m _ Hwf'), (ret_remove_trets p n Hwf).
       split; [intros [H|[[H1 H2] _]]; [left; tauto | right; auto] | intros [[_ H]|H]; [left; exact H | right; tauto]].
     + rewrite (ret_insert_trets p m n Hwf). split; [intros [H|H]; [left; tauto | right; exact H] | intros [[_ H]|H]; [left; exact H | right; exact H]].
@@ -429,11 +429,11 @@ Qed.
 
 Lemma step_relR n rs o : RelR n rs -> RelR (step n o) (abs_ret_step rs o).
 Proof.
-  intros [Hwf Hs]. destruct o as [f s sp|f s|t mg e]; cbn [step abs_ret_step].
+  intros [Hwf Hs]. destruct o as [f s sp|f s|t mg e ow]; cbn [step abs_ret_step].
   - destruct (insert_spec (split f) s sp n Hwf) as [H1 _]. split; [exact H1|]. intros q m. rewrite insert_trets by exact Hwf. apply Hs.
   - destruct (remove_spec (split f) s n Hwf) as [H1 _]. split; [exact H1|]. intros q m. rewrite remove_trets by exact Hwf. apply Hs.
-  - destruct (retain_spec (split t) mg e n Hwf) as [H1 _]. split; [exact H1|]. intros q m.
-    rewrite (retain_trets (split t) mg e n Hwf).
+  - destruct (retain_spec (split t) mg e ow n Hwf) as [H1 _]. split; [exact H1|]. intros q m.
+    rewrite (retain_trets (split t) mg e ow n Hwf).
     assert (HF : forall q0 m0, In (q0, m0) (filter (fun x => negb (path_eqb (fst x) (split t))) rs) <-> In (q0, m0) (trets n) /\ q0 <> split t).
     { intros q0 m0. rewrite filter_In. cbn [fst]. rewrite <- Hs. split.
       - intros [H1' H2]. split; [exact H1'|]. intros ->. apply negb_true_iff in H2.
@@ -458,20 +458,20 @@ Qed.
 (* every retained topic of a history whose retained publishes name wildcard-free topics is wildcard-free
    and has at least one level *)
 Definition valid_history (h : list op) : Prop :=
-  forall t mg e, In (ORetain t mg e) h -> valid_topic (split t) = true.
+  forall t mg e ow, In (ORetain t mg e ow) h -> valid_topic (split t) = true.
 
 Lemma split_aux_nonempty cur s : split_aux cur s <> [].
 Proof. revert cur. induction s as [|c s IH]; intros cur; cbn [split_aux]; [discriminate|]. destruct (c =? 47); [discriminate | apply IH]. Qed.
 
 Lemma abs_rets_from h : forall rs q m, In (q, m) (fold_left abs_ret_step h rs) ->
-  In (q, m) rs \/ exists t mg e, In (ORetain t mg e) h /\ q = split t.
+  In (q, m) rs \/ exists t mg e ow, In (ORetain t mg e ow) h /\ q = split t.
 Proof.
   induction h as [|o h IH]; intros rs q m H; cbn [fold_left] in H; [left; exact H|].
-  apply IH in H. destruct H as [H|[t [mg [e [H1 H2]]]]]; [|right; exists t, mg, e; split; [right; exact H1 | exact H2]].
-  destruct o as [f s sp|f s|t mg e]; cbn [abs_ret_step] in H; try (left; exact H).
+  apply IH in H. destruct H as [H|[t [mg [e [ow [H1 H2]]]]]]; [|right; exists t, mg, e, ow; split; [right; exact H1 | exact H2]].
+  destruct o as [f s sp|f s|t mg e ow]; cbn [abs_ret_step] in H; try (left; exact H).
   destruct e.
   - apply filter_In in H. left. exact (proj1 H).
-  - destruct H as [H|H]; [inversion H; subst; right; eexists _, _, _; split; [left; reflexivity | reflexivity]|].
+  - destruct H as [H|H]; [inversion H; subst; right; eexists _, _, _, _; split; [left; reflexivity | reflexivity]|].
     apply filter_In in H. left. exact (proj1 H).
 Qed.
 
@@ -480,14 +480,14 @@ Theorem retained_walk_history h f : valid_history h -> vfilter (split f) = true 
             exists t, In (t, m) (abs_rets h) /\ live m /\ matches (split f) t = true.
 Proof.
   intros Hvh Hvf m. destruct (run_relR h) as [Hwf Hs].
-  assert (Hfrom : forall q m0, In (q, m0) (trets (run h)) -> exists t mg e, In (ORetain t mg e) h /\ q = split t).
+  assert (Hfrom : forall q m0, In (q, m0) (trets (run h)) -> exists t mg e ow, In (ORetain t mg e ow) h /\ q = split t).
   { intros q m0 H. apply Hs in H. apply abs_rets_from in H. destruct H as [[]|H]. exact H. }
   assert (Hv : vpaths (run h)).
-  { intros q m0 H. destruct (Hfrom q m0 H) as [t [mg [e [Hin ->]]]]. apply (Hvh t mg e Hin). }
+  { intros q m0 H. destruct (Hfrom q m0 H) as [t [mg [e [ow [Hin ->]]]]]. apply (Hvh t mg e ow Hin). }
   assert (Hr : nret (run h) = None).
   { destruct (run h) as [ss r ks] eqn:E. cbn [nret]. destruct r as [m0|]; [|reflexivity]. exfalso.
     assert (H : In ([], m0) (trets (Node ss (Some m0) ks))) by (apply trets_in; left; auto).
-    destruct (Hfrom [] m0 H) as [t [mg [e [_ Ht]]]]. unfold split in Ht. symmetry in Ht. exact (split_aux_nonempty [] t Ht). }
+    destruct (Hfrom [] m0 H) as [t [mg [e [ow [_ Ht]]]]]. unfold split in Ht. symmetry in Ht. exact (split_aux_nonempty [] t Ht). }
   rewrite (ret_search_top_spec (split f) (run h) Hwf Hv Hr Hvf). split.
   - intros [t [Ht H]]. exists t. split; [apply Hs; exact Ht | exact H].
   - intros [t [Ht H]]. exists t. split; [apply Hs; exact Ht | exact H].
@@ -497,7 +497,7 @@ Qed.
 Lemma abs_rets_nodup h : forall rs, NoDup (map fst rs) -> NoDup (map fst (fold_left abs_ret_step h rs)).
 Proof.
   induction h as [|o h IH]; intros rs Hnd; cbn [fold_left]; [exact Hnd|]. apply IH.
-  destruct o as [f s sp|f s|t mg e]; cbn [abs_ret_step]; try exact Hnd.
+  destruct o as [f s sp|f s|t mg e ow]; cbn [abs_ret_step]; try exact Hnd.
   assert (HF : NoDup (map fst (filter (fun x => negb (path_eqb (fst x) (split t))) rs))).
   { clear IH. induction rs as [|[q m] rs IHr]; cbn [filter map fst]; [constructor|].
     cbn [map fst] in Hnd. inversion Hnd as [|? ? Hn Hnd']; subst.
